@@ -26,11 +26,23 @@ def adjacency(parents):
     return A
 
 
-def weight(kernel, k, power=0.9):
+def weight(kernel, k, power=0.9, offset=0):
+    if k <= offset:       # the first `offset` distances carry no weight
+        return 0.0
     return 1.0 if kernel == "flat" else (1.0 / k if kernel == "harmonic" else power ** k)
 
 
-def reference(trees, labels_kept, radius, kernel, orientation, removed=()):
+STORES = {"csr-float64": (sp.csr_matrix, np.float64), "lil-float64": (sp.lil_matrix, np.float64), "csr-int64": (sp.csr_matrix, np.int64),
+          "lil-int64": (sp.lil_matrix, np.int64), "lil-int32": (sp.lil_matrix, np.int32), "lil-bool": (sp.lil_matrix, np.bool_)}
+
+
+def stored(A, store):
+    """The same 0/1 adjacency matrix in another sparse format / number type (the counts may not depend on it)."""
+    ctor, dt = STORES[store]
+    return ctor(np.asarray(A).astype(dt))
+
+
+def reference(trees, labels_kept, radius, kernel, orientation, removed=(), offset=0):
     idx = {l: i for i, l in enumerate(labels_kept)}
     n = len(idx)
     C = np.zeros((n, n))
@@ -51,7 +63,7 @@ def reference(trees, labels_kept, radius, kernel, orientation, removed=()):
         P = np.eye(m)
         for k in range(1, radius + 1):
             P = P @ A
-            W += weight(kernel, k) * P
+            W += weight(kernel, k, offset=offset) * P
         for u in range(m):
             for v in range(m):
                 if W[u, v] and labels[u] in idx and labels[v] in idx:
@@ -65,8 +77,9 @@ def reference(trees, labels_kept, radius, kernel, orientation, removed=()):
     return np.hstack([C.T, C])
 
 
-def check(R, trees, radius, kernel, orientation, minocc=None):
-    case = dict(trees=[(A.tolist(), list(l)) for A, l in trees], window_radius=radius, kernel_function=kernel, window_orientation=orientation, min_occurrences=minocc)
+def check(R, trees, radius, kernel, orientation, minocc=None, offset=0, store="csr-float64"):
+    case = dict(trees=[(A.tolist(), list(l)) for A, l in trees], window_radius=radius, kernel_function=kernel, window_orientation=orientation, min_occurrences=minocc,
+                offset=offset, store=store)
     key = ("tree", repr(case))
     counts = {}
     for _, l in trees:
@@ -77,13 +90,14 @@ def check(R, trees, radius, kernel, orientation, minocc=None):
     if not kept:
         return
     try:
-        v = V.LabelledTreeCooccurrenceVectorizer(window_radius=radius, kernel_function=kernel, window_orientation=orientation, min_occurrences=minocc)
-        M = np.asarray(v.fit_transform([(sp.csr_matrix(A), np.array(l)) for A, l in trees]).todense(), dtype=np.float64)
+        v = V.LabelledTreeCooccurrenceVectorizer(window_radius=radius, kernel_function=kernel, window_orientation=orientation, min_occurrences=minocc,
+                                                 **({"kernel_args": {"offset": offset}} if offset else {}))
+        M = np.asarray(v.fit_transform([(stored(A, store), np.array(l)) for A, l in trees]).todense(), dtype=np.float64)
     except EXC as ex:
         R.case(key)
         R.fail("tree/%s" % type(ex).__name__, "raises %s: %s" % (type(ex).__name__, str(ex)[:100]), **case)
         return
-    want = reference(trees, kept, radius, kernel, orientation, removed)
+    want = reference(trees, kept, radius, kernel, orientation, removed, offset)
     R.case(key, nontrivial=bool(want.any()), sample=dict(case, matrix=M.tolist()) if want.any() else None)
     lab = [v.token_index_dictionary_[i] for i in range(len(v.token_index_dictionary_))]
     if lab != kept:
@@ -93,8 +107,8 @@ def check(R, trees, radius, kernel, orientation, minocc=None):
 
 
 def run(tier, seed):
-    R = Recorder("all rooted forests on <= %d nodes (exhaustive shapes) x seeded labelings over 3 labels x radius 1..3 x kernel flat/harmonic/geometric x four "
-                 "orientations, plus pruning (min_occurrences) with edge contraction; path graphs vs TokenCooccurrenceVectorizer. non-trivial = some walk counted")
+    R = Recorder("all rooted forests on <= %d nodes (exhaustive shapes) x seeded labelings over 3 labels x radius 1..4 x kernel flat/harmonic/geometric (kernel offset 0..2) x four "
+                 "orientations x adjacency storage (csr/lil x float64/int64/int32/bool), plus pruning (min_occurrences) with edge contraction; path graphs vs TokenCooccurrenceVectorizer. non-trivial = some walk counted")
     rng = random.Random(seed)
     nmax = 4 if tier == "quick" else 5
     R.rule = R.rule % nmax
@@ -111,6 +125,9 @@ def run(tier, seed):
                 trees.append((adjacency(p2), [rng.choice("xyz") for _ in range(len(p2))]))
             check(R, trees, rng.choice([1, 2, 3]), rng.choice(["flat", "harmonic", "geometric"]), rng.choice(["before", "after", "symmetric", "directional"]),
                   rng.choice([None, None, 2]))
+            # the same forest with a kernel offset (leading zero weights) and the adjacency matrix in another format / number type
+            check(R, trees, rng.choice([2, 3, 4]), rng.choice(["flat", "harmonic", "geometric"]), rng.choice(["before", "after", "symmetric", "directional"]),
+                  None, offset=rng.choice([0, 1, 1, 2]), store=rng.choice(sorted(STORES)))
     # path graphs coincide with TokenCooccurrenceVectorizer
     for _ in range(10 if tier == "quick" else 100):
         seq = [rng.choice("xyz") for _ in range(rng.randint(2, 6))]
@@ -134,6 +151,7 @@ def run(tier, seed):
 def replay(case):
     R = Recorder("replay")
     if "trees" in case:
-        check(R, [(np.array(A), l) for A, l in case["trees"]], case["window_radius"], case["kernel_function"], case["window_orientation"], case["min_occurrences"])
+        check(R, [(np.array(A), l) for A, l in case["trees"]], case["window_radius"], case["kernel_function"], case["window_orientation"], case["min_occurrences"],
+              case.get("offset", 0), case.get("store", "csr-float64"))
         return not any(f["id"] == case["id"] for f in R.failures)
     return not any(f["id"] == case["id"] for f in run("quick", 0)["failures"])
